@@ -2,7 +2,7 @@ SPECIFICATION MCSpec
 CONSTANTS
   Member = {"m1"}
   Start = 2
-  Bounds = {1, 2, 3, 4, 5}
+  Bounds = {1, 2, 3, 4}
   MaxBundles = 2
   MaxGets = 2
   MaxTicks = 2
